@@ -11,8 +11,11 @@
 (*  {"ev":"Append","rec":{n,ts,st},"res":r,"hist":[rec..]}   one record    *)
 (*        written through storage (WriteTransaction+WriteSnapshot) and     *)
 (*        LoadConsensusNodes; hist = the node's list afterwards            *)
-(*  {"ev":"C10","t":..,"kind":..,"chain":n,"thr":..,"keys":[n..],"res":r}  *)
-(*        real ConsensusThreshold(t,true) and ConsensusKeys(round,t)       *)
+(*  {"ev":"C10","t":..,"kind":..,"chain":n,"thr":..,"keys":[n..],"res":r,  *)
+(*   "certres":r,"final":b}                                                *)
+(*        real ConsensusThreshold(t,true) and ConsensusKeys(round,t);      *)
+(*        final = real verifyFinalization of a certificate signed by ALL   *)
+(*        keys of that key set                                             *)
 (*  {"ev":"C29", ...}  {"ev":"C11", ...}   see below                       *)
 (*                                                                         *)
 (* State: G (genesis set), H (the history as Membership.tla sees it), C     *)
@@ -79,18 +82,46 @@ C10Monitor(e, L, rm) ==
       LET k == Len(e.keys) IN
       /\ (IF QuorumIntersection(e.thr, k) THEN TRUE ELSE KnownFinding_C10_1(e))
       /\ (BaseL(L, rm, G, e.t, TRUE) < MinNodes => NoCertificatePossible(e.thr, k))
+      \* ... also through verification: a certificate signed by EVERY key of the key set, passed to
+      \* the real verifyFinalization, is not final when the base is below the minimum
+      /\ (BaseL(L, rm, G, e.t, TRUE) < MinNodes => ~Get(e, "final", FALSE))
 
 C10Full(e, L, rm) ==
     /\ e.res = "ok"
     /\ e.thr = ThresholdL(L, rm, G, e.t, TRUE)
     /\ e.keys = KeysL(L, rm, G, e.t, e.kind, e.chain)
     /\ (e.kind = "pledging-round0" => e.ispledging)
+    \* the certificate signed by all keys verifies exactly when the threshold is reachable
+    /\ (Has(e, "final") =>
+          /\ e.certres = (IF Len(e.keys) > 0 THEN "ok" ELSE "err")
+          /\ e.final = (Len(e.keys) > 0 /\ e.thr <= Len(e.keys)))
 
 C10 ==
     /\ IsEvent("C10")
     /\ LET L == NodesAt(H, Ev.t)  rm == RemovingAt(H, Ev.t) IN
          /\ (Mode = "full" => C10Full(Ev, L, rm))
          /\ (Mode \in {"full", "C10"} => C10Monitor(Ev, L, rm))
+    /\ UNCHANGED <<G, H, C, memo>>
+
+\* {"ev":"Legacy","gen":[n..],"rm":{n,ts,st},"t":..,"m":..,"klegacy":..,"kcur":..,"final":b}
+\* mainnet id before the signer-set fork: a certificate signed by the first m keys of the key vector
+\* from before the operation window (klegacy keys), verified by a node that already knows the removal
+\* (kcur keys).  verifyFinalization falls back to the legacy key set; the threshold it applies there
+\* must keep the quorum intersection on THAT key set.
+LegacyT(t) == t - (Hour(t) + 1 - AcceptBegin) * THour
+LegacyMonitor(e) == (e.res = "ok" /\ e.final) => QuorumIntersection(e.m, e.klegacy)
+LegacyFull(e) ==
+    LET GG == SeqToSet(e.gen)
+        HH == InsertRec(GenesisHist(GG), Rec(e.rm))
+        lt == LegacyT(e.t)
+    IN  /\ e.res = "ok"
+        /\ e.klegacy = Len(Keys(HH, GG, lt, "ordinary", 0))
+        /\ e.kcur = Len(Keys(HH, GG, e.t, "ordinary", 0))
+        /\ e.final = (e.m >= Threshold(HH, GG, lt, TRUE))
+LegacyEv ==
+    /\ IsEvent("Legacy")
+    /\ (Mode = "full" => LegacyFull(Ev))
+    /\ (Mode \in {"full", "C10"} => LegacyMonitor(Ev))
     /\ UNCHANGED <<G, H, C, memo>>
 
 (******************************** C29 ***********************************)
@@ -201,7 +232,7 @@ ViewsEv ==
                 c |-> IF Ev.t \in DOMAIN memo.c THEN memo.c ELSE memo.c @@ (Ev.t :> NormCust(Ev))]
     /\ UNCHANGED <<G, H, C>>
 
-Next == Reset \/ AppendRec \/ C10 \/ ElectEv \/ HoursEv \/ ValidEv \/ CustEv \/ ViewsEv
+Next == Reset \/ AppendRec \/ C10 \/ ElectEv \/ HoursEv \/ ValidEv \/ CustEv \/ ViewsEv \/ LegacyEv
 
 Spec == Init /\ [][Next]_vars
 
